@@ -1,1 +1,277 @@
-// placeholder
+//! Port of MPD's filter-expression grammar (song/Filter.cxx: SongFilter::Parse for one
+//! parenthesised expression, ParseExpression, ExpectWord, ExpectQuoted, ParseStringFilter).
+//! Written from MPD 0.23's documented behaviour; trusted base for C11 (and the filter arguments of
+//! C15).
+
+#[derive(Clone, Copy, Debug, PartialEq, Eq, Hash)]
+pub enum Op {
+    Eq,
+    Ne,
+    Contains,
+    NotContains,
+    StartsWith,
+    NotStartsWith,
+    Match,
+    NotMatch,
+}
+
+#[derive(Clone, Debug, PartialEq, Eq)]
+pub enum Tree {
+    Leaf { tag: String, op: Op, value: Vec<u8> },
+    Not(Box<Tree>),
+    And(Vec<Tree>),
+}
+
+impl Tree {
+    /// Normal form modulo associativity of AND: nested ANDs are flattened; tags compare
+    /// case-insensitively in MPD (`locate_parse_type`), so they are lower-cased.
+    pub fn normalize(&self) -> Tree {
+        match self {
+            Tree::Leaf { tag, op, value } => Tree::Leaf { tag: tag.to_ascii_lowercase(), op: *op, value: value.clone() },
+            Tree::Not(t) => Tree::Not(Box::new(t.normalize())),
+            Tree::And(items) => {
+                let mut out = Vec::new();
+                for it in items {
+                    match it.normalize() {
+                        Tree::And(inner) => out.extend(inner),
+                        other => out.push(other),
+                    }
+                }
+                Tree::And(out)
+            }
+        }
+    }
+    pub fn nodes(&self) -> usize {
+        match self {
+            Tree::Leaf { .. } => 1,
+            Tree::Not(t) => 1 + t.nodes(),
+            Tree::And(v) => 1 + v.iter().map(|t| t.nodes()).sum::<usize>(),
+        }
+    }
+    pub fn depth(&self) -> usize {
+        match self {
+            Tree::Leaf { .. } => 1,
+            Tree::Not(t) => 1 + t.depth(),
+            Tree::And(v) => 1 + v.iter().map(|t| t.depth()).max().unwrap_or(0),
+        }
+    }
+    pub fn values(&self, out: &mut Vec<Vec<u8>>) {
+        match self {
+            Tree::Leaf { value, .. } => out.push(value.clone()),
+            Tree::Not(t) => t.values(out),
+            Tree::And(v) => v.iter().for_each(|t| t.values(out)),
+        }
+    }
+    pub fn describe(&self) -> String {
+        match self {
+            Tree::Leaf { tag, op, value } => format!("({} {:?} {:?})", tag, op, String::from_utf8_lossy(value)),
+            Tree::Not(t) => format!("NOT{}", t.describe()),
+            Tree::And(v) => format!("AND[{}]", v.iter().map(|t| t.describe()).collect::<Vec<_>>().join(", ")),
+        }
+    }
+}
+
+struct P<'a> {
+    s: &'a [u8],
+    p: usize,
+}
+
+fn ws_not_null(b: u8) -> bool {
+    b != 0 && b <= 0x20
+}
+
+fn is_word_char(b: u8) -> bool {
+    b.is_ascii_alphabetic() || b == b'_' || b == b'-'
+}
+
+impl<'a> P<'a> {
+    fn cur(&self) -> u8 {
+        // C string: reading the terminator yields 0
+        self.s.get(self.p).copied().unwrap_or(0)
+    }
+    fn at(&self, off: usize) -> u8 {
+        self.s.get(self.p + off).copied().unwrap_or(0)
+    }
+    fn strip_left(&mut self) {
+        while ws_not_null(self.cur()) {
+            self.p += 1;
+        }
+    }
+    fn expect_word(&mut self) -> Result<&'a [u8], String> {
+        let b = self.p;
+        if !is_word_char(self.cur()) {
+            return Err("Word expected".into());
+        }
+        while is_word_char(self.cur()) {
+            self.p += 1;
+        }
+        let e = self.p;
+        self.strip_left();
+        Ok(&self.s[b..e])
+    }
+    fn after_prefix_ignore_case(&self, prefix: &[u8]) -> Option<usize> {
+        let rest = &self.s[self.p.min(self.s.len())..];
+        if rest.len() >= prefix.len() && rest[..prefix.len()].eq_ignore_ascii_case(prefix) {
+            Some(self.p + prefix.len())
+        } else {
+            None
+        }
+    }
+    fn expect_quoted(&mut self) -> Result<Vec<u8>, String> {
+        let q = self.cur();
+        self.p += 1;
+        if q != b'\'' && q != b'"' {
+            return Err("Quoted string expected".into());
+        }
+        let mut out = Vec::new();
+        while self.cur() != q {
+            if self.cur() == b'\\' {
+                self.p += 1;
+            }
+            if self.cur() == 0 {
+                return Err("Closing quote not found".into());
+            }
+            out.push(self.cur());
+            self.p += 1;
+            if out.len() >= 4096 {
+                return Err("Quoted value is too long".into());
+            }
+        }
+        self.p += 1;
+        self.strip_left();
+        Ok(out)
+    }
+    fn string_filter(&mut self) -> Result<(Op, Vec<u8>), String> {
+        for (prefix, op) in [
+            (&b"contains "[..], Op::Contains),
+            (&b"!contains "[..], Op::NotContains),
+            (&b"starts_with "[..], Op::StartsWith),
+            (&b"!starts_with "[..], Op::NotStartsWith),
+        ] {
+            if let Some(a) = self.after_prefix_ignore_case(prefix) {
+                self.p = a;
+                self.strip_left();
+                return Ok((op, self.expect_quoted()?));
+            }
+        }
+        if (self.cur() == b'!' || self.cur() == b'=') && self.at(1) == b'~' {
+            let op = if self.cur() == b'!' { Op::NotMatch } else { Op::Match };
+            self.p += 2;
+            self.strip_left();
+            return Ok((op, self.expect_quoted()?));
+        }
+        let op = if self.cur() == b'!' && self.at(1) == b'=' {
+            Op::Ne
+        } else if self.cur() == b'=' && self.at(1) == b'=' {
+            Op::Eq
+        } else {
+            return Err("'==' or '!=' expected".into());
+        };
+        self.p += 2;
+        self.strip_left();
+        Ok((op, self.expect_quoted()?))
+    }
+    fn expression(&mut self, depth: usize) -> Result<Tree, String> {
+        if depth > 200 {
+            return Err("expression nested too deeply (harness limit)".into());
+        }
+        debug_assert_eq!(self.cur(), b'(');
+        self.p += 1;
+        self.strip_left();
+        if self.cur() == b'(' {
+            let first = self.expression(depth + 1)?;
+            if self.cur() == b')' {
+                self.p += 1;
+                return Ok(first);
+            }
+            if self.expect_word()? != b"AND" {
+                return Err("'AND' expected".into());
+            }
+            let mut items = vec![first];
+            loop {
+                if self.cur() != b'(' {
+                    return Err("'(' expected".into());
+                }
+                items.push(self.expression(depth + 1)?);
+                if self.cur() == b')' {
+                    self.p += 1;
+                    return Ok(Tree::And(items));
+                }
+                if self.expect_word()? != b"AND" {
+                    return Err("'AND' expected".into());
+                }
+            }
+        }
+        if self.cur() == b'!' {
+            self.p += 1;
+            self.strip_left();
+            if self.cur() != b'(' {
+                return Err("'(' expected".into());
+            }
+            let inner = self.expression(depth + 1)?;
+            if self.cur() != b')' {
+                return Err("')' expected".into());
+            }
+            self.p += 1;
+            self.strip_left();
+            return Ok(Tree::Not(Box::new(inner)));
+        }
+        let tag = self.expect_word().map_err(|_| "Word expected (filter type)".to_string())?;
+        let tag = String::from_utf8_lossy(tag).to_string();
+        let (op, value) = self.string_filter()?;
+        if self.cur() != b')' {
+            return Err("')' expected".into());
+        }
+        self.p += 1;
+        self.strip_left();
+        Ok(Tree::Leaf { tag, op, value })
+    }
+}
+
+/// Parse one filter argument (as delivered by the request tokenizer).
+pub fn parse(arg: &[u8]) -> Result<Tree, String> {
+    // C string
+    let s = match arg.iter().position(|&b| b == 0) {
+        Some(n) => &arg[..n],
+        None => arg,
+    };
+    if s.first() != Some(&b'(') {
+        return Err("not an expression (does not start with '(')".into());
+    }
+    let mut p = P { s, p: 0 };
+    let t = p.expression(0)?;
+    if p.p < s.len() {
+        return Err("Unparsed garbage after expression".into());
+    }
+    Ok(t)
+}
+
+pub fn selftest() -> Result<(), String> {
+    let leaf = |t: &str, op: Op, v: &str| Tree::Leaf { tag: t.into(), op, value: v.as_bytes().to_vec() };
+    let cases: Vec<(&str, Result<Tree, ()>)> = vec![
+        (r#"(Artist == "foo\'bar\"")"#, Ok(leaf("Artist", Op::Eq, "foo'bar\""))),
+        (r#"(Artist == 'foo')"#, Ok(leaf("Artist", Op::Eq, "foo"))),
+        (r#"((Artist == "a") AND (!(Album != "")))"#, Ok(Tree::And(vec![leaf("Artist", Op::Eq, "a"), Tree::Not(Box::new(leaf("Album", Op::Ne, "")))]))),
+        (r#"(!(Artist contains "x y"))"#, Ok(Tree::Not(Box::new(leaf("Artist", Op::Contains, "x y"))))),
+        (r#"(Title =~ "^a.*b$")"#, Ok(leaf("Title", Op::Match, "^a.*b$"))),
+        (r#"(Title !~ "a")"#, Ok(leaf("Title", Op::NotMatch, "a"))),
+        (r#"(Title == "a\\b")"#, Ok(leaf("Title", Op::Eq, "a\\b"))),
+        (r#"(Title == "ab") x"#, Err(())),
+        (r#"(Title == "ab)"#, Err(())),
+        (r#"(Title = "ab")"#, Err(())),
+        (r#"((Title == "a") and (Title == "b"))"#, Err(())),
+        (r#"!(Title == "a")"#, Err(())),
+        // AND nested first: the closing parenthesis of an AND group is not followed by StripLeft
+        (r#"(((A == "a") AND (B == "b")) AND (C == "c"))"#, Err(())),
+        (r#"((C == "c") AND ((A == "a") AND (B == "b")))"#, Ok(Tree::And(vec![leaf("C", Op::Eq, "c"), Tree::And(vec![leaf("A", Op::Eq, "a"), leaf("B", Op::Eq, "b")])]))),
+    ];
+    for (s, want) in cases {
+        let got = parse(s.as_bytes());
+        match (&got, &want) {
+            (Ok(g), Ok(w)) if g == w => {}
+            (Err(_), Err(())) => {}
+            _ => return Err(format!("filter self-test: {:?} -> {:?}, expected {:?}", s, got, want)),
+        }
+    }
+    Ok(())
+}
